@@ -192,6 +192,18 @@ func normalizeByInlining(repo string, base map[string][]byte) (map[string][]byte
 	}
 	var log []string
 	total := 0
+	// comparisons written with the constant on the left (STOP == tp, 0 < n) are turned round: the rules
+	// look for the constant on the right
+	if P0, err := loadSyntaxOnly(repo, overlay); err == nil {
+		ch, n := constLeftPass(P0, overlay)
+		for k, v := range ch {
+			overlay[k] = v
+		}
+		if n > 0 {
+			total += n
+			log = append(log, fmt.Sprintf("%d comparisons with the constant on the left turned round", n))
+		}
+	}
 	for round := 0; round < 8; round++ {
 		P, err := loadSyntaxOnly(repo, overlay)
 		if err != nil {
@@ -290,6 +302,57 @@ func pruneDead(P *Program, known *knownSet, overlay map[string][]byte) (map[stri
 		return nil, nil
 	}
 	return out, log
+}
+
+func constLeftPass(P *Program, overlay map[string][]byte) (map[string][]byte, int) {
+	changed := map[string][]byte{}
+	total := 0
+	flip := map[token.Token]string{token.EQL: "==", token.NEQ: "!=", token.LSS: ">", token.GTR: "<", token.LEQ: ">=", token.GEQ: "<="}
+	for _, p := range repoPkgs(P) {
+		for _, f := range p.Syntax {
+			name := P.Fset.File(f.Pos()).Name()
+			if strings.HasSuffix(name, "_test.go") {
+				continue
+			}
+			src, ok := overlay[name]
+			if !ok {
+				b, err := os.ReadFile(name)
+				if err != nil {
+					continue
+				}
+				src = b
+			}
+			off := func(ps token.Pos) int { return P.Fset.Position(ps).Offset }
+			var rs []repl
+			ast.Inspect(f, func(n ast.Node) bool {
+				be, ok := n.(*ast.BinaryExpr)
+				if !ok {
+					return true
+				}
+				op, isCmp := flip[be.Op]
+				if !isCmp {
+					return true
+				}
+				tx, ty := p.TypesInfo.Types[be.X], p.TypesInfo.Types[be.Y]
+				if tx.Value == nil || ty.Value != nil {
+					return true
+				}
+				// operands without effects only (evaluation order of the two sides is then immaterial)
+				if !effectFree(p.TypesInfo, be.Y) {
+					return true
+				}
+				x := string(src[off(be.X.Pos()):off(be.X.End())])
+				y := string(src[off(be.Y.Pos()):off(be.Y.End())])
+				rs = append(rs, repl{off(be.Pos()), off(be.End()), y + " " + op + " " + x})
+				return false
+			})
+			if len(rs) > 0 {
+				changed[name] = applyRepls(src, rs)
+				total += len(rs)
+			}
+		}
+	}
+	return changed, total
 }
 
 func loadSyntaxOnly(repo string, overlay map[string][]byte) (*Program, error) {
